@@ -295,6 +295,9 @@ func (c *checkSchema) collectAllowedJsonTypes(node schema.Node, ss map[string]sc
 		}
 		c.foundTypeNames[typeName] = struct{}{}
 		c.collectAllowedJsonTypes(getType(typeName, c.rootSchema, ss).RootNode(), ss) // can panic
+		// Only the types being expanded right now matter: two alternatives may
+		// lead to the same type without any recursion.
+		delete(c.foundTypeNames, typeName)
 	}
 }
 
